@@ -340,6 +340,34 @@ def affineRoot : Root := fun r guess =>
     (cols.map (·.getD e 0)) ++ [-(r0.getD e 0)]
   gaussSolve rows
 
+/-! ### `reset()` : the object with its saved initial state vector -/
+
+/-- a `SimulationProblem` after `initialize()`: the live state and `__initialized_state_vector`
+    (a deep copy taken at the end of `initialize()`) -/
+structure SimObj where
+  cur : Sim
+  init : Vec
+deriving Repr
+
+/-- the public calls that may follow `initialize()` -/
+inductive Op where
+  | update (dtArg : Rat)
+  | setVar (i : Nat) (neg : Bool) (v : Rat)
+  | reset
+deriving Repr
+
+/-- `reset()` : the live state vector becomes a fresh copy of the saved one (`dt` is kept) -/
+def SimObj.reset (o : SimObj) : SimObj := { o with cur := { o.cur with sv := o.init } }
+
+/-- one call; an `update` that raises leaves the mutated object behind (see `update`) -/
+def applyOp (M : Static) (F G : ResFn) (root : Root) (o : SimObj) : Op → SimObj
+  | .update dtArg => { o with cur := (update M F G root o.cur dtArg).obj }
+  | .setVar i neg v => { o with cur := setVar M o.cur i neg v }
+  | .reset => o.reset
+
+def applyOps (M : Static) (F G : ResFn) (root : Root) (o : SimObj) (ops : List Op) : SimObj :=
+  ops.foldl (applyOp M F G root) o
+
 /-- a root finder that tries a list of candidates and answers with the first that is a root -/
 def checkedRoots (cands : List Vec) : Root := fun r g =>
   cands.find? fun c => decide (c.length = g.length) && (r c).all (fun v => v == 0)
